@@ -14,6 +14,7 @@ import copy
 
 from sa import mutate as M
 from sa.consts import UNKNOWN
+from sa import pattern as PT
 from sa.ctx import Ctx
 from sa.loader import AnalysisError, FuncInfo, call_name, norm, own_nodes, parent
 from sa.ranges import has_bound, refusal_constraints
@@ -192,11 +193,11 @@ def rule_tables(ctx: Ctx, rep: Report) -> None:
         named = (set(lv) | set(cb) | {"0", "1", "thresh"}) - sugar
         rep.ob(rule, "parser_names_cover", {f for f in U if not f.endswith(":")} <= named | {"0", "1"}, where, f"fragments the parser has no name for: {sorted({f for f in U if not f.endswith(':')} - named)}")
     # v: overhead uses the same predicate in size and ops
-    sz = norm(ctx.func(f"{MS}._computed_script_size").node)
-    op = norm(ctx.func(f"{MS}._wrapper_ops").node)
+    sz = PT.text(ctx.func(f"{MS}._computed_script_size"))
+    op = PT.text(ctx.func(f"{MS}._wrapper_ops"))
     rep.ob(rule, "v:same_predicate", "_has(node.subs[0].properties, 'x')" in sz and "_has(sub.properties, 'x')" in op, where, "v: costs one opcode exactly when its child has property x, in size and in ops")
     # leaf sizes against their literal templates
-    ls = norm(ctx.func(f"{MS}._leaf_script_size").node)
+    ls = PT.text(ctx.func(f"{MS}._leaf_script_size"))
     rep.ob(rule, "leaf_sizes", "size = 33 if node.context == TAPSCRIPT else 34" in ls and "size = 3 + 21" in ls and "size = 4 + 2 + (33 if _DATA_SIZE[fragment] == 32 else 21)" in ls, where, "pk_k 33/34, pk_h 3+21, hashes 4+2+(33|21)")
 
 
@@ -208,16 +209,16 @@ def rule_limits(ctx: Ctx, rep: Report) -> None:
            and ctx.const(MS, "_MAX_TIMELOCK") == 0x80000000 and ctx.const(MS, "_MAX_STANDARD_TX_WEIGHT") == 400000, where, "999 / 500000000 / 1<<22 / 2^31 / 400000")
     an = ctx.func(f"{MS}.Miniscript._assert_number")
     cs = refusal_constraints(ctx, an)
-    txt = norm(an.node)
+    txt = PT.text(an)
     rep.ob(rule, "timelock_range", ("_MAX_TIMELOCK" in txt) and any(c.op in ("<", "<=", ">=", ">") for c in cs), an.where(), "after/older in [1, 2^31)")
     rep.ob(rule, "thresh_range", "threshold" in txt and ("len(self.subs)" in txt or "len(self.keys)" in txt), an.where(), "1 <= k <= n")
     ak = ctx.func(f"{MS}.Miniscript._assert_keys")
     rep.ob(rule, "multi_key_counts", "20" in norm(ak.node) or "MAX_PUBKEYS_PER_MULTISIG" in norm(ak.node) or "_MAX_PUBKEYS_PER_MULTI_A" in norm(ak.node), ak.where(), "multi <= 20 keys, multi_a <= 999")
     rl = ctx.func(f"{MS}.Miniscript.is_within_resource_limits")
-    t = norm(rl.node)
+    t = PT.text(rl)
     rep.ob(rule, "resource_limits", all(w in t for w in ("max_ops", "max_stack_items")) and ("201" in t or "MAX_OPS_PER_SCRIPT" in t) and ("1000" in t or "MAX_STACK_SIZE" in t), rl.where(), "ops <= 201 (p2wsh), stack <= 1000")
     ms = ctx.func(f"{MS}._max_script_size")
-    t = norm(ms.node)
+    t = PT.text(ms)
     rep.ob(rule, "max_script_size", "3600" in t or "MAX_STANDARD_P2WSH_SCRIPT_SIZE" in t, ms.where(), "p2wsh scripts <= 3600 bytes")
     ac = ctx.func(f"{MS}._assert_valid_context")
     rep.ob(rule, "contexts", "P2WSH" in norm(ac.node) and "TAPSCRIPT" in norm(ac.node), ac.where(), "context is p2wsh or tapscript")
